@@ -154,7 +154,7 @@ func TinySpec(r *hx.Rng, k SpecKnobs) *common.Spec {
 	sp.SYNC_COMMITTEE_SIZE = view.Uint64View(pick(r, 4, 8, 32))
 	sp.TARGET_COMMITTEE_SIZE = view.Uint64View(pick(r, 2, 4))
 	sp.MAX_COMMITTEES_PER_SLOT = view.Uint64View(pick(r, 1, 2, 4))
-	sp.SHUFFLE_ROUND_COUNT = view.Uint8View(pick(r, 0, 3, 10))
+	sp.SHUFFLE_ROUND_COUNT = view.Uint8View(pick(r, 0, 3, 3, 10, 10, 10))
 	sp.MIN_SEED_LOOKAHEAD = 1
 	sp.MAX_SEED_LOOKAHEAD = common.Epoch(pick(r, 1, 2, 4))
 	sp.MIN_PER_EPOCH_CHURN_LIMIT = 2
